@@ -768,6 +768,41 @@ static void run_bq(const char *args)
   free(buf);
 }
 
+/* ------------------------------------------------------------------ ll mode */
+/* ll <hex>: full libjpeg decode (no colour conversion) of a crafted stream whose samples are all equal by
+ * construction; prints the extreme sample values of every row reported as produced. */
+static void run_ll(const char *hex)
+{
+  struct jpeg_decompress_struct c; struct my_err e; size_t len; unsigned char *buf = unhex(hex, &len);
+  unsigned char *volatile row = NULL; volatile long rows = 0; volatile int mn = 1 << 30, mx = -1; double t0 = cpu_us();
+  memset(&c, 0, sizeof(c));
+  c.err = jpeg_std_error(&e.pub); e.pub.error_exit = my_exit; e.pub.emit_message = my_emit; e.pub.output_message = my_output; e.code = 0; e.eofw = 0;
+  if (setjmp(e.jb)) { printf("ll err%d rows=%ld min=%d max=%d\n", e.code, (long)rows, (int)mn, (int)mx); jpeg_destroy_decompress(&c); free(row); free(buf); return; }
+  jpeg_create_decompress(&c);
+  c.mem->max_memory_to_use = 256L * 1024 * 1024;
+  jpeg_mem_src(&c, buf, (unsigned long)len);
+  if (jpeg_read_header(&c, TRUE) != JPEG_HEADER_OK || (unsigned long long)c.image_width * c.image_height > MAXPIXELS) { puts("ll nohdr"); jpeg_destroy_decompress(&c); free(buf); return; }
+  c.out_color_space = c.jpeg_color_space;
+  jpeg_start_decompress(&c);
+  {
+    int prec = c.data_precision, ssz = prec <= 8 ? 1 : 2; size_t n = (size_t)c.output_width * c.output_components, i;
+    row = (unsigned char *)malloc(n * ssz ? n * ssz : 1);
+    while (c.output_scanline < c.output_height) {
+      JDIMENSION got;
+      memset(row, 0x5A, n * ssz);
+      if (prec <= 8) { JSAMPROW r = (JSAMPROW)row; got = jpeg_read_scanlines(&c, &r, 1); }
+      else if (prec <= 12) { J12SAMPROW r = (J12SAMPROW)row; got = jpeg12_read_scanlines(&c, &r, 1); }
+      else { J16SAMPROW r = (J16SAMPROW)row; got = jpeg16_read_scanlines(&c, &r, 1); }
+      if (!got) break;
+      for (i = 0; i < n; i++) { int v = ssz == 1 ? row[i] : ((unsigned short *)row)[i]; if (v < mn) mn = v; if (v > mx) mx = v; }
+      rows++;
+    }
+    jpeg_finish_decompress(&c);
+  }
+  printf("ll ok %ux%u nc=%d rows=%ld min=%d max=%d warn=%ld t=%.0f\n", c.image_width, c.image_height, c.num_components, (long)rows, (int)mn, (int)mx, c.err->num_warnings, cpu_us() - t0);
+  jpeg_destroy_decompress(&c); free(row); free(buf);
+}
+
 /* ---------------------------------------------------------------- watchdog */
 #include <signal.h>
 #include <unistd.h>
@@ -801,6 +836,7 @@ int main(void)
     else if (!strncmp(line, "hist ", 5)) run_hist(line + 5);
     else if (!strncmp(line, "crop ", 5)) run_crop(line + 5);
     else if (!strncmp(line, "bq ", 3)) run_bq(line + 3);
+    else if (!strncmp(line, "ll ", 3)) run_ll(line + 3);
     else puts("?");
   }
   return 0;
